@@ -793,11 +793,17 @@ type valConflict struct {
 	a, b   *model.Sel
 	reason string
 	sub    *valConflict
+	// more: the other conflicting pairs among the same sub-selections (any of them may be the
+	// one an implementation names)
+	more []*valConflict
 }
 
 func (k *valConflict) nodes(out *[]interface{}) {
 	for ; k != nil; k = k.sub {
 		*out = append(*out, k.a, k.b)
+		for _, m := range k.more {
+			m.nodes(out)
+		}
 	}
 }
 
@@ -967,8 +973,8 @@ func (o *valOverlap) canMerge1(a, b *model.Sel) *valConflict {
 	if !valSameArgs(a.Args, b.Args) {
 		return &valConflict{a: a, b: b, reason: "they have differing arguments"}
 	}
-	if sub := o.setCanMerge(o.fieldsOf(a.Sel, b.Sel)); sub != nil {
-		return &valConflict{a: a, b: b, reason: "sub-selections conflict", sub: sub}
+	if subs := o.allConflicts(o.fieldsOf(a.Sel, b.Sel)); len(subs) > 0 {
+		return &valConflict{a: a, b: b, reason: "sub-selections conflict", sub: subs[0], more: subs[1:]}
 	}
 	return nil
 }
